@@ -630,6 +630,55 @@ pub fn t_early_returns(a: &[f64]) -> Vec<f64> {
     vec![n as f64, i as f64, x]
 }
 
+
+#[derive(Clone, Copy, PartialEq)]
+enum Step {
+    Left,
+    Right,
+    Both,
+}
+enum Shape {
+    Dot,
+    Circle(f64),
+    Rect { w: f64, h: f64 },
+}
+fn area(s: &Shape) -> f64 {
+    match s {
+        Shape::Dot => 0.0,
+        Shape::Circle(r) => 3.0 * r * r,
+        Shape::Rect { w, h } => w * h,
+    }
+}
+pub fn t_crate_enums(a: &[f64]) -> Vec<f64> {
+    let mut v = Vec::new();
+    for w in a.windows(2) {
+        let step = match (w[0].partial_cmp(&w[1]), w[0] > 1.5) {
+            (Some(Ordering::Less), _) | (Some(Ordering::Equal), true) => Step::Left,
+            (Some(Ordering::Greater), false) => Step::Right,
+            _ => Step::Both,
+        };
+        v.push(match step {
+            Step::Left => 1.0,
+            Step::Right => 2.0,
+            Step::Both => 3.0,
+        });
+        v.push(if step == Step::Both { 9.0 } else { 0.0 });
+        v.push(step as u8 as f64);
+        let sh = if w[0] < 0.0 {
+            Shape::Dot
+        } else if w[0] < 2.0 {
+            Shape::Circle(w[1])
+        } else {
+            Shape::Rect { h: w[0], w: w[1] }
+        };
+        v.push(area(&sh));
+        if let Shape::Rect { w: ww, .. } = sh {
+            v.push(ww);
+        }
+    }
+    v
+}
+
 pub const ALL: &[(&str, fn(&[f64]) -> Vec<f64>)] = &[
     ("t_map_collect", t_map_collect), ("t_zip_rev", t_zip_rev), ("t_enumerate_skip_take", t_enumerate_skip_take),
     ("t_chain_once", t_chain_once), ("t_windows", t_windows), ("t_windows3", t_windows3), ("t_chunks", t_chunks),
@@ -650,4 +699,5 @@ pub const ALL: &[(&str, fn(&[f64]) -> Vec<f64>)] = &[
     ("t_let_else_classify", t_let_else_classify), ("t_nested_patterns", t_nested_patterns),
     ("t_take_split_first_mut", t_take_split_first_mut), ("t_blanket_trait", t_blanket_trait),
     ("t_macro_const_table", t_macro_const_table), ("t_early_returns", t_early_returns),
+    ("t_crate_enums", t_crate_enums),
 ];
